@@ -12,7 +12,7 @@ THEOREMS = ['C08.C08_inv', 'C08.step_inv', 'C08.round_inv', 'C08.C08_round', 'C0
 LEVEL = 'proof'
 LEVEL_TEXT = 'Theorem C08_inv: for every mechanism whose filter chain contains LevelLimit(L) (any position, any other filters), in every state reachable from a fresh tree — every moment of every run, all engines, stop conditions, candidate sets, tie patterns, directions — no non-root level has more than L active demes; the invariant is inductive (step_inv); a round creates per level at most L minus the active demes (C08_round). Tie: trace refinement (activity flags, created demes and the LevelLimit stage output are computed by the model and diffed) + census monitor at every GSC consult and around every round.'
 LEVEL_NOTE = 'Trusted: Lean kernel + standard axioms; the hand-written tree / sprout model is tied to the code by trace refinement on sampled runs (every run is re-executed by the model; dumps and the output of every stage of the sprout mechanism are diffed); numerical engines, objective values, NumPy distances and user-defined stop-condition verdicts are environment; monitors trusted as failing-input search.'
-TECHNIQUE = "trace refinement against the Lean tree model (Tree.step re-executes real runs) + direct monitors"
+TECHNIQUE = "Lean 4 theorems (inductive invariants of the tree machine Tree.step, proved for all configurations and event sequences) tied to the code by trace refinement (Tree.step re-executes real runs; engine generations replayed bit-exactly by the engine model) + direct monitors as failing-input search"
 RULE = "case = one traced run of a random configuration (1-3 levels, engine per level from the full list, every shipped GSC/LSC kind plus user-defined ones, both stock sprout mechanisms and user-composed chains, hibernation on/off, both directions, decimal boxes, optional cutoff/precision/stats wrappers, shared or per-level problems); non-trivial = run with >= 2 demes and >= 2 metaepochs; distinct by configuration hash"
 ASSUMPTIONS = ["objective is deterministic and never returns NaN", "runs are capped at 12 metaepochs by a user-level composite stop condition"]
 FORCE = None
